@@ -290,7 +290,9 @@ Section Codec.
   (* ---- reader ---------------------------------------------------------------------------- *)
   Record archive := { a_bytes : list N; a_version : N; a_shift : N; a_hash : list hentry; a_blocks : list bentry }.
 
-  Definition slice (bs : list N) (off len : N) : list N := firstn (N.to_nat len) (skipn (N.to_nat off) bs).
+  (* offsets and lengths beyond the buffer select what is there (no unary blow-up on garbage fields) *)
+  Definition slice (bs : list N) (off len : N) : list N :=
+    let n := lenN bs in firstn (N.to_nat (N.min len n)) (skipn (N.to_nat (N.min off n)) bs).
 
   Fixpoint group4 (fuel : nat) (ws : list N) : list (list N) :=
     match fuel with
